@@ -638,6 +638,15 @@ Fixpoint run_flags (s : prov) (ops : list op) : list (bool * bool) :=
   | o :: t => let s1 := fst (step s o) in (clean_op s (shape_of o), wfb s1) :: run_flags s1 t
   end.
 
+Fixpoint clean_run (s : prov) (ops : list op) : bool :=
+  match ops with
+  | [] => true
+  | o :: t => clean_op s (shape_of o) && clean_run (fst (step s o)) t
+  end.
+
+(* the flavours whose dictionary keys cannot clash: not (oid_is_path and case-insensitive) *)
+Definition sane_cfg (c : cfg) : bool := negb (c_oidpath c) || c_cs c.
+
 (* ------------------------------------------------------------------ Provider.connect *)
 (* The connection_id check of Provider.connect as a state machine.  [ident] is what connect_impl
    answers for the credentials (the identity they belong to); None = connect_impl raises
